@@ -878,6 +878,8 @@ func (te *TemplateEngine) cloneDocument(source *Document) *Document {
 		doc.parts = make(map[string][]byte)
 	}
 	te.cloneAllDocumentParts(source, doc)
+	// 模板文档的 styles.xml 若由本库生成，则克隆结果保存时同样根据（克隆的）样式管理器重新生成
+	doc.stylesGenerated = source.stylesGenerated
 
 	// 复制文档关系（包含页眉页脚引用）
 	if source.documentRelationships != nil {
